@@ -10,6 +10,7 @@ TRUSTED_BASE = [
     "Coq 8.16.1 kernel (coqc, full .vo compilation; vm_compute used for witness lemmas; native_compute not used)",
     "axioms: none expected — Print Assumptions of every property theorem is re-run on every check and compared with the allowlist",
     "tools/params.py (regex translator: constants of /repo/chitchat/src -> coq/theories/Params.v, regenerated every run)",
+    "tools/guards.py (expression translator: 13 integer decision guards of /repo/chitchat/src -> coq/theories/GuardsGen.v, regenerated every run; coq/theories/GuardTie.v proves the model's guards cut the same boundaries; a guard it cannot locate falls back to the model's own and is listed in the evidence)",
     "hand-written Gallina model coq/theories/*.v, tied to the code by the correspondence harness (harness/, Rust, links /repo/chitchat with feature verif) and extract/driver.ml",
     "extraction: ExtrOcamlBasic only (bool, option, list, prod, unit, sumbool -> OCaml natives), no Extract Constant / Extract Inductive of our own; OCaml 4.13.1 + zarith for number printing",
     "zstd is a section variable (zc/zd); at run time its answers are read back from the implementation's own streams",
@@ -26,14 +27,14 @@ PROPS = {
     },
     "C02": {
         "suites": [("kf1", 12, 60), ("proc", 300, 3000), ("conv", 30, 200), ("apply", 100, 1000), ("kv", 60, 400)],
-        "title": "in every state reachable without a weak acceptance (known finding KF-1), every copy and every message in flight is exact up to its frontier w.r.t. the owner's write ledger; with weak acceptances allowed the statement is refuted by a reachable 3-node history (vm_compute witness)",
+        "title": "in every state reachable without a weak acceptance (known finding KF-1), every copy and every message in flight is exact up to its frontier w.r.t. the owner's write ledger; with weak acceptances allowed the statement is refuted by a reachable 3-node history (vm_compute witness); the same with honest external catch-ups (any node fed any snapshot of any member at any time) in the step relation",
     },
     "C03": {
         "suites": [("proc", 250, 2500), ("apply", 100, 1000)],
         "title": "global invariant over all reachable states: every entry of every copy is a write of the owner with that version; max version, watermark and heartbeat never exceed the owner's; messages carry only owner writes",
     },
     "C04": {
-        "suites": [("apply", 300, 3000), ("proc", 100, 1000), ("kv", 100, 600)],
+        "suites": [("apply", 300, 3000), ("proc", 100, 1000), ("kv", 100, 600), ("catchup", 100, 1000)],
         "title": "frontier monotonicity of apply_delta / cluster apply for every grammar-valid delta; fresh versions of local writes; copy invariant inductive; along every step of the global relation from every reachable state no copy's frontier decreases (removal only by liveness evaluation) and no stored key version decreases unless the watermark strictly rose (keys disappear only as tombstones collected at or below the new watermark); every such step passes the C04 monitor",
     },
     "C05": {
@@ -62,11 +63,11 @@ PROPS = {
     },
     "C11": {
         "suites": [("fd", 200, 2000), ("proc", 80, 800)],
-        "title": "stale/equal/lower heartbeats leave the whole node unchanged; first value is not evidence; alive needs an interval; steady heartbeats stay alive",
+        "title": "stale/equal/lower heartbeats leave the whole node unchanged; first value is not evidence; alive needs an interval; steady heartbeats stay alive; the stored heartbeat of a held member never decreases along any step of the global relation from any reachable state",
     },
     "C12": {
         "suites": [("fd", 200, 2000), ("proc", 120, 1200)],
-        "title": "disjoint live/dead, self never classified nor removed, every other known member in exactly one set after an evaluation; quarantine of scheduled members in digests and deltas; removal at grace; no revival by stale heartbeats; for every message: a removed, remembered member is recreated only by a digest heartbeat strictly above the remembered one",
+        "title": "disjoint live/dead, self never classified nor removed, every other known member in exactly one set after an evaluation; quarantine of scheduled members in digests and deltas; removal at grace; no revival by stale heartbeats; for every message: a removed, remembered member is recreated only by a digest heartbeat strictly above the remembered one; in every reachable state the detector holds no state about a member the node holds no copy of",
     },
     "C13": {
         "suites": [("proc", 150, 1500), ("fd", 150, 1500)],
@@ -74,7 +75,7 @@ PROPS = {
     },
     "C14": {
         "suites": [("proc", 120, 1200, NO_MB), ("delta", 40, 300), ("apply", 200, 2000)],
-        "title": "agreement of sender's reset decision and receiver's admission for all copies and truncation points; tie to the MTU loop",
+        "title": "agreement of sender's reset decision and receiver's admission for all copies and truncation points; tie to the MTU loop; every computed delta passes the start-version, offer and agreement monitors",
     },
     "C15": {
         "suites": [("listen", 200, 2000), ("kv", 100, 600)],
@@ -82,15 +83,15 @@ PROPS = {
     },
     "C16": {
         "suites": [("proc", 100, 1000), ("wire", 60, 400)],
-        "title": "foreign SYN answered by BadCluster only, state untouched but the own heartbeat; rejection terminal; over every schedule of a routed network (loss, duplication, reordering, cross-cluster SYNs) no node ever holds a copy of a member of a cluster with a different id",
+        "title": "foreign SYN answered by BadCluster only, state untouched but the own heartbeat; rejection terminal; over every schedule of a routed network (loss, duplication, reordering, cross-cluster SYNs) no node ever holds a copy of a member of a cluster with a different id; the routed network is simulated by the global relation; the detector of a node names no member of another cluster",
     },
     "C17": {
-        "suites": [("select", 60, 600), ("round", 40, 300)],
+        "suites": [("select", 60, 600), ("round", 200, 1500)],
         "title": "selection bounds, forced seed when isolated, forced dead peer when dead outnumber live, for every random-generator answer",
     },
     "C18": {
         "suites": [("catchup", 250, 2500)],
-        "title": "catch-up never aborts, leaves the copy unchanged or replaces its key set with a strictly larger frontier, never touches detector sets / watch / removed members",
+        "title": "catch-up never aborts, leaves the copy unchanged or replaces its key set with a strictly larger frontier, never touches detector sets / watch / removed members; every supplied key installed (newer of common keys kept); sampling windows untouched; honest catch-ups interleaved with gossip keep every copy integral and exact and the owner's copy the truth; fetched states stay honest; a snapshot of the node itself is a no-op",
     },
     "C19": {
         "suites": [("loop", 120, 1200), ("udp", 3, 12)],
